@@ -315,5 +315,43 @@ impl<'a, W: WriteExt, F: Formatter> MapKeySerializer<'a, W, F> {
 //@end
 }
 
+// ---- the raw-value channel (RawNumber, LazyValue, OwnedLazyValue serialize themselves as a one-field struct named by
+// a private token): the struct opens NO object, and the emitter writes the text verbatim — no quotes, no escaping
+//@extract file=src/serde/ser.rs struct=RawValueStrEmitter
+//@subst /^struct RawValueStrEmitter<'a, W: 'a \+ WriteExt, F: 'a \+ Formatter>\(&'a mut Serializer<W, F>\);/ => pub struct RawValueStrEmitter<'a, W: 'a + WriteExt, F: 'a + Formatter>(pub &'a mut Serializer<W, F>);
+//@end
+impl<'a, W: WriteExt, F: Formatter> RawValueStrEmitter<'a, W, F> {
+    #[verifier::prophetic]
+    pub open spec fn fut_ser(&self) -> Serializer<W, F> { mut_ref_future(self.0) }
+    pub open spec fn cur_calls(&self) -> Seq<FCall> { self.0.formatter.calls() }
+    pub open spec fn cur_failed(&self) -> bool { self.0.formatter.failed() }
+//@extract file=src/serde/ser.rs impl="ser::Serializer for RawValueStrEmitter<'a, W, F>" fn=serialize_str
+//@subst /\.map_err\(Error::io\)/ => .map_io()
+//@sig
+        requires !self.cur_failed(),
+        ensures res.is_ok() ==> self.fut_ser().formatter.calls() == self.cur_calls().push(FCall::RawValue(sbytes(value))),
+            self.fut_ser().formatter.failed() ==> res.is_err(),
+//@end
+}
+// the two private tokens (src/serde/rawnumber.rs, src/lazyvalue/mod.rs): only their being *some* fixed strings matters
+pub uninterp spec fn is_raw_token_spec(name: Seq<u8>) -> bool;
+#[verifier::external_body]
+pub fn is_raw_token(name: &str) -> (r: bool) ensures r == is_raw_token_spec(sbytes(name)), { unimplemented!() }
+impl<'a, W: WriteExt, F: Formatter> Serializer<W, F> {
+//@extract file=src/serde/ser.rs impl="ser::Serializer for &'a mut Serializer<W, F>" fn=serialize_struct
+//@subst /fn serialize_struct\(self,/ => fn serialize_struct(&'a mut self,
+//@subst /Self::SerializeStruct/ => Compound<'a, W, F>
+//@subst /match name \{\s*crate::serde::rawnumber::TOKEN \| crate::lazyvalue::TOKEN => \{\s*Ok\(Compound::RawValue \{ ser: self \}\)\s*\}\s*_ => self\.serialize_map\(Some\(len\)\),\s*\}/ => if is_raw_token(name) { Ok(Compound::RawValue { ser: self }) } else { self.serialize_map(Some(len)) }
+//@sig
+        ensures
+            // a raw-value struct writes nothing by itself; any other struct is an object of `len` fields
+            res.is_ok() && is_raw_token_spec(sbytes(name)) ==> res->Ok_0 is RawValue && res->Ok_0.fut_ser() == *final(self)
+                && res->Ok_0.cur_calls() == old(self).formatter.calls() && res->Ok_0.cur_failed() == old(self).formatter.failed(),
+            res.is_ok() && !is_raw_token_spec(sbytes(name)) ==> res->Ok_0 is Map && res->Ok_0.fut_ser() == *final(self)
+                && res->Ok_0.cur_calls() == old(self).formatter.calls().push(FCall::BeginObject) + (if len == 0 { seq![FCall::EndObject] } else { Seq::<FCall>::empty() })
+                && (res->Ok_0->state is Empty) == (len == 0),
+//@end
+}
+
 } // verus!
 fn main() {}
